@@ -60,6 +60,9 @@ var (
 		{state.WithLabelQuery(resource.LabelLTNumeric("k2", "1Ki")), state.WithLabelQuery(resource.LabelIn("k1", []string{"x", "y"}))},
 		{state.WithLabelQuery(resource.LabelLTE("k1", "x", resource.NotMatches), resource.LabelLT("k2", "2", resource.NotMatches))},
 		{state.WithLabelQuery(resource.LabelLTENumeric("k2", "1500", resource.NotMatches))},
+		// a query without terms matches everything, also as one alternative among several queries
+		{state.WithLabelQuery()},
+		{state.WithLabelQuery(resource.LabelEqual("k1", "y")), state.WithLabelQuery()},
 	}
 	wsels = [][]state.WatchKindOption{
 		nil,
@@ -69,6 +72,8 @@ var (
 		{state.WatchWithLabelQuery(resource.LabelLTNumeric("k2", "1Ki")), state.WatchWithLabelQuery(resource.LabelIn("k1", []string{"x", "y"}))},
 		{state.WatchWithLabelQuery(resource.LabelLTE("k1", "x", resource.NotMatches), resource.LabelLT("k2", "2", resource.NotMatches))},
 		{state.WatchWithLabelQuery(resource.LabelLTENumeric("k2", "1500", resource.NotMatches))},
+		{state.WatchWithLabelQuery()},
+		{state.WatchWithLabelQuery(resource.LabelEqual("k1", "y")), state.WatchWithLabelQuery()},
 	}
 )
 
